@@ -264,9 +264,12 @@ type listener struct {
 	served   atomic.Int64
 }
 
-func listenVia(lbAddr, ep string, agentStyle bool) (*listener, error) {
+func listenVia(lbAddr, ep string, agentStyle bool, token ...string) (*listener, error) {
 	u, _ := url.Parse("http://" + lbAddr)
 	up := &client.Upstream{URL: u, MinReconnectBackoff: 50 * time.Millisecond, MaxReconnectBackoff: 500 * time.Millisecond}
+	if len(token) > 0 {
+		up.Token = token[0]
+	}
 	var ln client.Listener
 	var err error
 	if agentStyle {
@@ -312,6 +315,8 @@ func (l *listener) close() {
 
 // ---- one fault case ------------------------------------------------------------------------
 
+const c18Secret = "c18-shared-secret-0123456789abcdef"
+
 type c18case struct {
 	Nodes  int    `json:"nodes"`
 	Victim int    `json:"victim"`
@@ -320,12 +325,18 @@ type c18case struct {
 	// Rebalance: upstream rebalancing enabled on every node (threshold 1.5, shed
 	// rate 0.5, min-conns 1)
 	Rebalance bool `json:"rebalance,omitempty"`
+	// Auth: the upstream port requires a token; listeners authenticate with one
+	// that expires in 24 h (so the server arms its expiry deadline for them)
+	Auth bool `json:"upstream_auth,omitempty"`
 }
 
 func (c c18case) String() string {
 	s := fmt.Sprintf("%d nodes, victim n%d, phase %s, %s", c.Nodes, c.Victim, c.Phase, c.Signal)
 	if c.Rebalance {
 		s += ", rebalancing enabled"
+	}
+	if c.Auth {
+		s += ", upstream port authenticated (listeners hold tokens that expire in 24 h)"
 	}
 	return s
 }
@@ -349,6 +360,9 @@ func runC18Case(bin, dir string, c c18case, sh *core.Shard) (sig, what, inconclu
 		var extra []string
 		if c.Rebalance {
 			extra = []string{"--upstream.rebalance.threshold", "1.5", "--upstream.rebalance.shed-rate", "0.5", "--upstream.rebalance.min-conns", "1"}
+		}
+		if c.Auth {
+			extra = append(extra, "--upstream.auth.hmac-secret-key", c18Secret)
 		}
 		p, err := startProc(bin, dir, fmt.Sprintf("n%d", i), join, grace, extra...)
 		if err != nil {
@@ -381,7 +395,11 @@ func runC18Case(bin, dir string, c c18case, sh *core.Shard) (sig, what, inconclu
 	}()
 	add := func(node int, ep string, agentStyle bool) error {
 		balancer.setPrefer(node)
-		l, err := listenVia(balancer.ln.Addr().String(), ep, agentStyle)
+		var tok []string
+		if c.Auth {
+			tok = []string{nodes.HSToken([]byte(c18Secret), nil, 24*time.Hour)}
+		}
+		l, err := listenVia(balancer.ln.Addr().String(), ep, agentStyle, tok...)
 		if err != nil {
 			return err
 		}
@@ -879,6 +897,10 @@ func runC18(sh *core.Shard, a props.Args) {
 			cases = append(cases, c18case{Nodes: 2, Victim: v, Phase: "upstreams", Signal: sg, Rebalance: true})
 		}
 	}
+	// authenticated upstream port: a middle node lost with upstreams connected
+	cases = append(cases,
+		c18case{Nodes: 3, Victim: 1, Phase: "requests-in-flight", Signal: "term", Auth: true}, // includes the mid-drain observation
+		c18case{Nodes: 3, Victim: 1, Phase: "upstreams", Signal: "kill", Auth: true})
 	// balancer outage scenarios (reconnect backoff), one per listener style
 	for k, agentStyle := range []bool{true, false} {
 		if !a.Mine(len(cases) + k) {
@@ -955,7 +977,7 @@ func clip(s string, n int) string {
 func init() {
 	props.Register(&props.Prop{
 		ID: "C18", Level: "fault_enumeration", Parallel: 6, ExhaustiveWhenAll: true,
-		Rule: "clusters of 3 (thorough 3-5) real `piko server` processes started from the freshly built binary (thorough: race-built) with a 5 s grace period and 50 ms gossip interval; upstream listeners (client.Upstream, created agent-style with a cancelled connect context and with a live one) connect through a harness TCP load balancer so that a reconnect can land on a survivor; two endpoints live only on the victim, one only on a survivor, one on both; steady request traffic on every node. Enumerated completely: victim = every node x phase in {idle, upstreams connected, requests in flight (each grace/4 long), mid-shutdown (SIGTERM then SIGKILL / second SIGTERM)} x {SIGTERM, SIGKILL}. Oracle. Graceful: two seconds into a shutdown whose proxy is still draining 4 s requests the victim already holds no upstream (it stops advertising first); the process exits with status 0 within grace+10 s, and at the instant it has exited every survivor lists it as left or not at all; crash: every survivor flags it unreachable (60 s watchdog => inconclusive). Both: every listener keeps serving (a Serve/Accept that returned although nobody closed the listener is a violation), every endpoint is registered again on survivors exactly as often as the harness holds listeners, and once the survivors' tables mirror each other's own state every endpoint answers 200 through every surviving node; no survivor's remote_requests_total{node_id=victim} grows after the departure was known. Distinct = one per (size, victim, phase, signal). Four more cases run 2-node clusters with upstream rebalancing enabled (either node lost, term and kill, upstreams connected): after recovery the lone survivor keeps every re-attached upstream registered for four rebalance periods. Two outage scenarios (one node behind the balancer, agent-style and plain listener): the balancer cuts the session and refuses every connection until 10 attempts were made; consecutive attempts are never further apart than the maximum reconnect backoff (500 ms + 10% jitter) plus a 3 s allowance, the listener never gives up, and the endpoint is registered and served again once the balancer works.",
+		Rule: "clusters of 3 (thorough 3-5) real `piko server` processes started from the freshly built binary (thorough: race-built) with a 5 s grace period and 50 ms gossip interval; upstream listeners (client.Upstream, created agent-style with a cancelled connect context and with a live one) connect through a harness TCP load balancer so that a reconnect can land on a survivor; two endpoints live only on the victim, one only on a survivor, one on both; steady request traffic on every node. Enumerated completely: victim = every node x phase in {idle, upstreams connected, requests in flight (each grace/4 long), mid-shutdown (SIGTERM then SIGKILL / second SIGTERM)} x {SIGTERM, SIGKILL}. Oracle. Graceful: two seconds into a shutdown whose proxy is still draining 4 s requests the victim already holds no upstream (it stops advertising first); the process exits with status 0 within grace+10 s, and at the instant it has exited every survivor lists it as left or not at all; crash: every survivor flags it unreachable (60 s watchdog => inconclusive). Both: every listener keeps serving (a Serve/Accept that returned although nobody closed the listener is a violation), every endpoint is registered again on survivors exactly as often as the harness holds listeners, and once the survivors' tables mirror each other's own state every endpoint answers 200 through every surviving node; no survivor's remote_requests_total{node_id=victim} grows after the departure was known. Distinct = one per (size, victim, phase, signal). Four more cases run 2-node clusters with upstream rebalancing enabled (either node lost, term and kill, upstreams connected): after recovery the lone survivor keeps every re-attached upstream registered for four rebalance periods. Two outage scenarios (one node behind the balancer, agent-style and plain listener): the balancer cuts the session and refuses every connection until 10 attempts were made; consecutive attempts are never further apart than the maximum reconnect backoff (500 ms + 10% jitter) plus a 3 s allowance, the listener never gives up, and the endpoint is registered and served again once the balancer works. Two cases repeat victim n1 (requests in flight / term, with the mid-drain observation; upstreams connected / kill) with an authenticated upstream port and listeners holding tokens that expire in 24 h.",
 		Assumptions: []string{
 			"settling is decided from the admin API of the survivors; pure slowness beyond the 60 s watchdog is inconclusive, never a violation",
 			"'mid-shutdown' is approximated by a second signal 150 ms after SIGTERM",
